@@ -118,6 +118,7 @@ var typeCase = map[*ast.CaseClause]bool{}
 func typeCaseIndex(b *cfg.Block, cc *ast.CaseClause) int {
 	return 1 // second or later type of the same clause: attribute to the second (facts for lists are approximate)
 }
+
 var caseTagged = map[*ast.CaseClause]bool{}
 
 func indexSwitches(body ast.Node) {
